@@ -448,7 +448,7 @@ func runReplay(repo, verifDir, id string, meta PropMeta, seed int, model, input 
 	os.WriteFile(ovPath, ovData, 0o644)
 	ctx, cancel := context.WithTimeout(context.Background(), 180*time.Second)
 	defer cancel()
-	cmd := exec.CommandContext(ctx, "go", "test", "-overlay", ovPath, "-vet=off", "-count=1", "-timeout", "120s", "-run", "^"+meta.ReplayTest+"$", "./"+meta.ReplayPkg)
+	cmd := exec.CommandContext(ctx, "go", "test", "-overlay", ovPath, "-vet=off", "-count=1", "-v", "-timeout", "150s", "-run", "^"+meta.ReplayTest+"$", "./"+meta.ReplayPkg)
 	cmd.Dir = repo
 	cmd.Env = append(os.Environ(), "GOFLAGS=-mod=mod", "GOPROXY=off", "GOSUMDB=off", "GOTOOLCHAIN=local",
 		"VERIF_SEED="+strconv.Itoa(seed), "VERIF_MODEL="+model, "VERIF_REPLAY_INPUT="+input, "GOCACHE="+filepath.Join(os.TempDir(), "govc-gocache"))
